@@ -161,6 +161,24 @@ func PlanFromSeed(seed int64, k int) Plan {
 		p.FirstPeer = 0
 		p.Extend, p.ReorgDepth = 0, 0
 	}
+	if k == 11 || k == 12 {
+		// Fixed scenarios: the client's first peer serves a valid fork that
+		// leaves the honest chain EXACTLY at a boundary the client may not go
+		// below: at genesis without checkpoints (k=11), at the last header
+		// checkpoint it passed (k=12), and is a few blocks shorter; the
+		// honest chain is the better one and forks nowhere deeper.
+		p.ChainLen = 90
+		p.Checkpoints = nil
+		p.Preset = chaingen.PresetNoRetarget
+		at := int32(0)
+		if k == 12 {
+			p.Checkpoints = []int32{40}
+			at = 40
+		}
+		p.Peers = []PeerPlan{{Kind: BLighter, At: at}, {Kind: BHonest}}
+		p.FirstPeer = 0
+		p.Extend, p.ReorgDepth = 2, 0
+	}
 	if k == 10 {
 		// A fixed scenario: the honest peer syncs the client; a peer that
 		// overstates its height (and only has the first 60 blocks) connects
